@@ -4,7 +4,10 @@ character, PrepareAccept <=> exists valid name: RenameAccept, no edit outside lo
 MC: TLC enumerates every (occurrence, locality, candidate name) of the table and checks the theorems in every state.
 GEN: every row is replayed into ide::Analysis::{prepare_rename, rename} on a three-package workspace (app, a path
 dependency, a build/packages dependency) built like server.rs::assemble_graph builds it; a handful of locality rows
-are replayed end to end through the real server (textDocument/prepareRename, textDocument/rename)."""
+are replayed end to end through the real server (textDocument/prepareRename, textDocument/rename) on three workspace
+shapes: the dependency named by version or by a path entry x living under build/packages or next to app (locality is
+decided by the directory alone: `dep = { path = "build/packages/dep" }` names a non-local package).  The same gate is
+swept over every generated project layout by C17 (c17.py)."""
 import json, os, random
 import vlib
 
@@ -161,18 +164,37 @@ def edited_uris(result):
     return uris
 
 
+# How app's gleam.toml names the dependency (entry) x where the dependency's directory is (place).  Locality is decided by
+# the place alone (RenameGate: "registry" = lives under build/packages, non-local; anything else is local), whatever the
+# entry says: a `path` entry pointing into build/packages names a non-local package.  (A version entry means
+# <root>/build/packages/<name> by definition, so version x sibling does not denote a project.)
+E2E_SHAPES = [("version", "packages"), ("path", "packages"), ("path", "sibling")]
+
+
 def end_to_end(out, seed):
-    """app (local) depends on dep (app/build/packages/dep).  Rows: the dependency's function queried at its use in app
-    and at its definition / a private function inside the dependency's own file: error, no edits.  A function of app
-    queried the same way: accepted, edits only below app/src.  One request at a time."""
+    n = 0
+    for entry, place in E2E_SHAPES:
+        n += end_to_end_shape(out, seed, entry, place)
+    return n
+
+
+def end_to_end_shape(out, seed, entry, place):
+    """app (local) depends on dep, which lives in app/build/packages/dep (non-local) or next to app (local) and is named by
+    a version requirement or by a path entry.  Rows: the dependency's function queried at its use in app and at its
+    definition / a private function inside the dependency's own file: error and no edits when dep is non-local, accepted
+    otherwise.  A function of app queried the same way: accepted, edits only below app/src.  No edit below build/packages,
+    ever.  One request at a time."""
     import lsp
-    base = vlib.workdir("c08-e2e")
+    base = vlib.workdir("c08-e2e-%s-%s" % (entry, place))
     root = os.path.join(base, "app")
-    depdir = os.path.join(root, "build", "packages", "dep")
+    depdir = os.path.join(root, "build", "packages", "dep") if place == "packages" else os.path.join(base, "dep")
     os.makedirs(os.path.join(root, "src"))
     os.makedirs(os.path.join(depdir, "src"))
+    spec = '"1.0.0"' if entry == "version" else '{ path = "%s" }' % os.path.relpath(depdir, root)
+    dep_locality = "registry" if place == "packages" else "path"
+    dep_ok = dep_locality != "registry"
     files = {
-        os.path.join(root, "gleam.toml"): 'name = "app"\nversion = "0.1.0"\n\n[dependencies]\ndep = "1.0.0"\n',
+        os.path.join(root, "gleam.toml"): 'name = "app"\nversion = "0.1.0"\n\n[dependencies]\ndep = %s\n' % spec,
         os.path.join(root, "src", "app.gleam"): APP,
         os.path.join(root, "src", "util.gleam"): UTIL,
         os.path.join(depdir, "gleam.toml"): 'name = "dep"\nversion = "1.0.0"\n',
@@ -186,16 +208,16 @@ def end_to_end(out, seed):
     good = rnd.choice(["renamed", "zz", "new_name1", "h2"])
     # (row id, file, text, needle, offset, locality, site, new name, class, expect accept)
     rows = [
-        ("dep_fn_at_use", app, APP, "dep.f()", 4, "registry", "use", good, "lower", False),
-        ("dep_fn_at_def", dep, DEP, "fn f()", 3, "registry", "def", good, "lower", False),
-        ("dep_private_fn_at_use", dep, DEP, "  g()", 2, "registry", "use", good, "lower", False),
+        ("dep_fn_at_use", app, APP, "dep.f()", 4, dep_locality, "use", good, "lower", dep_ok),
+        ("dep_fn_at_def", dep, DEP, "fn f()", 3, dep_locality, "def", good, "lower", dep_ok),
+        ("dep_private_fn_at_use", dep, DEP, "  g()", 2, dep_locality, "use", good, "lower", dep_ok),
         ("local_fn_at_use", app, APP, "util.helper()", 5, "same", "use", good, "lower", True),
         ("local_fn_at_def", util, UTIL, "fn helper()", 3, "same", "def", good, "lower", True),
         ("local_fn_keyword", app, APP, "util.helper()", 5, "same", "use", rnd.choice(KEYWORDS), "keyword", False),
         ("local_fn_upper", app, APP, "util.helper()", 5, "same", "use", "Helper", "upper", False),
         ("local_fn_two_tokens", app, APP, "util.helper()", 5, "same", "use", "a b", "two_tokens", False),
         ("local_fn_empty", app, APP, "util.helper()", 5, "same", "use", "", "empty", False),
-        ("module_qualifier", app, APP, "dep.f()", 0, "registry", "use", good, "lower", False),
+        ("module_qualifier", app, APP, "dep.f()", 0, dep_locality, "use", good, "lower", False),
     ]
     sess = lsp.Session(root, stderr_path=os.path.join(base, "stderr.log"))
     n = 0
@@ -212,14 +234,16 @@ def end_to_end(out, seed):
         res = (r or {}).get("result")
         loc = res[0] if isinstance(res, list) and res else res
         target = (loc or {}).get("uri") or (loc or {}).get("targetUri") if isinstance(loc, dict) else None
-        if target != lsp.uri(dep):
-            raise vlib.ToolError("end-to-end workspace not resolved (goto-definition of dep.f gave %r)" % (r,))
+        # (compared after lexical normalisation: a path dependency next to app is reported as app/../dep/..., finding C17-F2)
+        if not target or os.path.normpath(target[len("file://"):]) != dep:
+            raise vlib.ToolError("end-to-end workspace (%s, %s) not resolved (goto-definition of dep.f gave %r)" % (entry, place, r))
         for (rid, path, text, needle, off, locality, site, new, cls, accept) in rows:
             tdp = {"textDocument": {"uri": lsp.uri(path)}, "position": position(text, needle, off)}
             kind = "module" if rid == "module_qualifier" else "function"
             feats = lambda what, api: {"what": what, "kind": kind, "name_class": cls, "locality": locality, "site": site, "api": api,
-                                       "via": "qualified" if site == "use" and path == app else "direct", "occ": "e2e." + rid, "level": "server"}
-            detail = lambda got: {"e2e": True, "row": rid, "new_name": new, "got": got, "seed": seed}
+                                       "via": "qualified" if site == "use" and path == app else "direct", "occ": "e2e." + rid, "level": "server",
+                                       "dep_entry": entry, "dep_place": place}
+            detail = lambda got: {"e2e": True, "row": rid, "dep_entry": entry, "dep_place": place, "new_name": new, "got": got, "seed": seed}
             pr = sess.request("textDocument/prepareRename", tdp)
             rr = sess.request("textDocument/rename", dict(tdp, newName=new))
             n += 2
@@ -237,7 +261,7 @@ def end_to_end(out, seed):
             if "error" in rr and rr.get("result"):
                 out.report(feats("error_with_edits", "rename"), detail(rr))
             for u in sorted(uris):
-                if "/build/packages/" in u:
+                if "/build/packages/" in os.path.normpath(u[len("file://"):]):
                     out.report(feats("edit_in_dependency", "rename"), detail(rr))
                     break
             if r_ok and accept and not uris:
@@ -340,7 +364,10 @@ def run(out, tier, seed):
 def replay(out, path):
     d = json.load(open(path))["detail"]
     if d.get("e2e"):
-        end_to_end(out, d.get("seed", 1))
+        if d.get("dep_entry"):
+            end_to_end_shape(out, d.get("seed", 1), d["dep_entry"], d["dep_place"])
+        else:
+            end_to_end(out, d.get("seed", 1))
         return
     row = d["row"]
     if d.get("agreement"):
